@@ -101,17 +101,17 @@ theorem ctxnextObj_raw (st : St) : (ctxnextObj st).raw = st.raw := by
   · split <;> rfl
 
 theorem rawnext_obj (n : Nat) (st : St) (h : ObjOnly st.macros) (hp : Plain st.raw) :
-    exec (n + 3) .rawnext st = .ok (rawnextObj st) := by
-  show rawnextBody (exec (n + 2)) st = _
+    exec (n + 2) .rawnext st = .ok (rawnextObj st) := by
+  show rawnextBody (exec (n + 1)) st = _
   unfold rawnextBody
-  rw [ctxnext_obj (n + 1) st h]
+  rw [ctxnext_obj n st h]
   unfold rawnextObj
   simp only
   cases hrb : (ctxnextObj st).rb with
   | true => rfl
   | false =>
     simp only [Bool.false_eq_true, ↓reduceIte]
-    show nextintoBody (exec (n + 1)) (ctxnextObj st) = _
+    show nextintoBody (exec n) (ctxnextObj st) = _
     unfold nextintoBody scanTok
     have hr := ctxnextObj_raw st
     cases hraw : (ctxnextObj st).raw with
@@ -168,14 +168,17 @@ theorem rawnextObj_macros_obj (st : St) (h : ObjOnly st.macros) : ObjOnly (rawne
   split <;> split <;> (try split) <;> (try split) <;> exact ho
 
 theorem next_obj (n : Nat) (st : St) (h : ObjOnly st.macros) (hp : Plain st.raw) :
-    exec (n + 4) .next st =
-      if again (stepObj st) then exec (n + 3) .next (stepObj st)
+    exec (n + 3) .next st =
+      if again (stepObj st) then exec (n + 2) .next (stepObj st)
       else .ok { stepObj st with tok := toKeyword (stepObj st).rt } := by
-  show nextBody (exec (n + 3)) st = _
+  show nextBody (exec (n + 2)) st = _
   unfold nextBody
   rw [rawnext_obj n st h hp]
   simp only
-  rw [expand_obj (n + 2) _ _ (rawnextObj_macros_obj st h)]
+  rw [expand_obj (n + 1) _ _ (rawnextObj_macros_obj st h)]
   rfl
+
+theorem next_low (st : St) : exec 0 .next st = .error .fuel ∧ exec 1 .next st = .error .fuel ∧
+    exec 2 .next st = .error .fuel := ⟨rfl, rfl, rfl⟩
 
 end CprocVerif.PP
